@@ -202,4 +202,207 @@ Proof.
   - intros l [].
   - simpl. lia.
 Qed.
+(* ---- sharing is printed in full: on a value that unfolds to a tree, the heap
+   printer prints exactly that tree ------------------------------------------- *)
+Notation write_value := (write_value is_print shortest).
+
+Definition wlist (l : list value) : list N :=
+  (fix go (l : list value) : list N :=
+     match l with
+     | [] => []
+     | x :: t => write_value x ++ match t with [] => [] | _ => sep ++ go t end
+     end) l.
+Definition wentries (l : list (value * value)) : list N :=
+  (fix go (l : list (value * value)) : list N :=
+     match l with
+     | [] => []
+     | (k, x) :: t => write_value k ++ [58; 32]%N ++ write_value x
+                      ++ match t with [] => [] | _ => sep ++ go t end
+     end) l.
+
+Definition ulist (u : hval -> option value) (l : list hval) : option (list value) :=
+  (fix go (l : list hval) : option (list value) :=
+     match l with
+     | [] => Some []
+     | y :: t => match u y, go t with Some a, Some b => Some (a :: b) | _, _ => None end
+     end) l.
+
+Lemma ulist_cons u y t : ulist u (y :: t) =
+  match u y, ulist u t with Some a, Some b => Some (a :: b) | _, _ => None end.
+Proof. reflexivity. Qed.
+
+Lemma ulist_cons_nonempty u y t b : ulist u (y :: t) = Some b -> exists b0 b', b = b0 :: b'.
+Proof.
+  rewrite ulist_cons. destruct (u y); [|discriminate]. destruct (ulist u t); [|discriminate].
+  intros H. inversion H. eauto.
+Qed.
+
+Lemma go_list_tree (u : hval -> option value) (w : hval -> wres) (l : list hval) vs :
+  Forall (fun y => forall v, u y = Some v -> w y = WOk (write_value v)) l ->
+  ulist u l = Some vs ->
+  (fix go (l : list hval) : wres :=
+     match l with
+     | [] => WOk []
+     | y :: t => wbind (w y) (fun a =>
+                 match t with
+                 | [] => WOk a
+                 | _ => wbind (go t) (fun b => WOk (a ++ sep ++ b))
+                 end)
+     end) l = WOk (wlist vs).
+Proof.
+  intros H. revert vs. induction H as [|y t Hy Ht IH]; intros vs U.
+  - cbn in U. inversion U. reflexivity.
+  - rewrite ulist_cons in U.
+    destruct (u y) as [a|] eqn:Ua; [|discriminate].
+    destruct (ulist u t) as [b|] eqn:Ub; [|discriminate].
+    inversion U; subst. rewrite (Hy a eq_refl). cbn [wbind].
+    destruct t as [|y2 t2].
+    + cbn in Ub. inversion Ub. subst. cbn. now rewrite app_nil_r.
+    + rewrite (IH b eq_refl). cbn [wbind].
+      destruct (ulist_cons_nonempty _ _ _ _ Ub) as (b0 & b' & ->).
+      reflexivity.
+Qed.
+
+Lemma tuple_comma (l : list hval) u vs : ulist u l = Some vs ->
+  match l with [_] => [44%N] | _ => [] end = match vs with [_] => [44%N] | _ => [] end.
+Proof.
+  intros U. destruct l as [|y [|y2 t]]; cbn in U.
+  - inversion U. reflexivity.
+  - destruct (u y); inversion U. reflexivity.
+  - destruct (u y); [|discriminate]. destruct (u y2); [|discriminate].
+    destruct ((fix go (l : list hval) : option (list value) :=
+                 match l with
+                 | [] => Some []
+                 | y :: t => match u y, go t with Some a, Some b => Some (a :: b) | _, _ => None end
+                 end) t); inversion U. reflexivity.
+Qed.
+
+Lemma unfold_tuple fuel h path l :
+  unfold fuel h path (HTuple l) = option_map VTuple (ulist (unfold fuel h path) l).
+Proof. destruct fuel; reflexivity. Qed.
+
+Definition wgo_list (w : hval -> wres) (l : list hval) : wres :=
+  (fix go (l : list hval) : wres :=
+     match l with
+     | [] => WOk []
+     | y :: t => wbind (w y) (fun a =>
+                 match t with
+                 | [] => WOk a
+                 | _ => wbind (go t) (fun b => WOk (a ++ sep ++ b))
+                 end)
+     end) l.
+Definition wgo_dict (wk wv : hval -> wres) (l : list (hval * hval)) : wres :=
+  (fix go (l : list (hval * hval)) : wres :=
+     match l with
+     | [] => WOk []
+     | (k, y) :: t =>
+       wbind (wk k) (fun a =>
+       wbind (wv y) (fun b =>
+       match t with
+       | [] => WOk (a ++ [58; 32] ++ b)%N
+       | _ => wbind (go t) (fun c => WOk (a ++ [58; 32] ++ b ++ sep ++ c)%N)
+       end))
+     end) l.
+Definition udict (uk uv : hval -> option value) (l : list (hval * hval)) : option (list (value * value)) :=
+  (fix go (l : list (hval * hval)) : option (list (value * value)) :=
+     match l with
+     | [] => Some []
+     | (k, y) :: t =>
+       match uk k, uv y, go t with
+       | Some a, Some b, Some c => Some ((a, b) :: c)
+       | _, _, _ => None
+       end
+     end) l.
+
+Lemma write_heap_ref_S f h path loc :
+  write_heap (S f) h path (HRef loc) =
+  match nth_error h loc with
+  | None => WDangling
+  | Some (OList l) =>
+    if existsb (Nat.eqb loc) path then WOk [91; 46; 46; 46; 93]%N
+    else wbind (wgo_list (write_heap f h (path ++ [loc])) l) (fun body => WOk ([91] ++ body ++ [93])%N)
+  | Some (ODict l) =>
+    if existsb (Nat.eqb loc) path then WOk [123; 46; 46; 46; 125]%N
+    else wbind (wgo_dict (write_heap f h path) (write_heap f h (path ++ [loc])) l)
+               (fun body => WOk ([123] ++ body ++ [125])%N)
+  end.
+Proof. reflexivity. Qed.
+
+Lemma unfold_ref_S f h path loc :
+  unfold (S f) h path (HRef loc) =
+  match nth_error h loc with
+  | None => None
+  | Some (OList l) =>
+    if existsb (Nat.eqb loc) path then None
+    else option_map VList (ulist (unfold f h (path ++ [loc])) l)
+  | Some (ODict l) =>
+    if existsb (Nat.eqb loc) path then None
+    else option_map VDict (udict (unfold f h path) (unfold f h (path ++ [loc])) l)
+  end.
+Proof. reflexivity. Qed.
+
+Lemma udict_cons uk uv k y t : udict uk uv ((k, y) :: t) =
+  match uk k, uv y, udict uk uv t with Some a, Some b, Some c => Some ((a, b) :: c) | _, _, _ => None end.
+Proof. reflexivity. Qed.
+
+Lemma go_dict_tree (uk uv : hval -> option value) (wk wv : hval -> wres) :
+  (forall k v, uk k = Some v -> wk k = WOk (write_value v)) ->
+  (forall y v, uv y = Some v -> wv y = WOk (write_value v)) ->
+  forall l vs, udict uk uv l = Some vs -> wgo_dict wk wv l = WOk (wentries vs).
+Proof.
+  intros Hk Hv. induction l as [|[k y] t IHl]; intros vs U.
+  - inversion U. reflexivity.
+  - rewrite udict_cons in U.
+    destruct (uk k) as [a|] eqn:Uk; [|discriminate].
+    destruct (uv y) as [b|] eqn:Uy; [|discriminate].
+    destruct (udict uk uv t) as [c|] eqn:Ut; [|discriminate].
+    inversion U; subst.
+    change (wgo_dict wk wv ((k, y) :: t)) with
+      (wbind (wk k) (fun a =>
+       wbind (wv y) (fun b =>
+       match t with
+       | [] => WOk (a ++ [58; 32] ++ b)%N
+       | _ => wbind (wgo_dict wk wv t) (fun c => WOk (a ++ [58; 32] ++ b ++ sep ++ c)%N)
+       end))).
+    rewrite (Hk k a Uk). cbn [wbind]. rewrite (Hv y b Uy). cbn [wbind].
+    destruct t as [|[k2 y2] t2].
+    + inversion Ut. subst. cbn [wentries]. now rewrite app_nil_r.
+    + rewrite (IHl c eq_refl). cbn [wbind].
+      rewrite udict_cons in Ut.
+      destruct (uk k2); [|discriminate]. destruct (uv y2); [|discriminate].
+      destruct (udict uk uv t2); [|discriminate]. inversion Ut; subst.
+      cbn [wentries]. reflexivity.
+Qed.
+
+Theorem write_heap_tree_lemma : forall fuel h path x v,
+  unfold fuel h path x = Some v -> write_heap fuel h path x = WOk (write_value v).
+Proof.
+  induction fuel as [|f IHf]; intros h path x.
+  - induction x as [v0|loc|l IH] using hval_ind2; intros v U.
+    + cbn in U. inversion U. reflexivity.
+    + cbn in U. destruct (nth_error h loc) as [[l|l]|]; try discriminate;
+        destruct (existsb (Nat.eqb loc) path); discriminate.
+    + rewrite unfold_tuple in U. rewrite write_heap_tuple.
+      destruct (ulist (unfold 0 h path) l) as [vs|] eqn:Ul; [|discriminate]. inversion U; subst.
+      rewrite (go_list_tree (unfold 0 h path) (write_heap 0 h path) l vs IH Ul). cbn [wbind].
+      rewrite (tuple_comma l _ vs Ul). reflexivity.
+  - induction x as [v0|loc|l IH] using hval_ind2; intros v U.
+    + cbn in U. inversion U. reflexivity.
+    + rewrite unfold_ref_S in U. rewrite write_heap_ref_S.
+      destruct (nth_error h loc) as [[l|l]|]; try discriminate.
+      * destruct (existsb (Nat.eqb loc) path); [discriminate|].
+        destruct (ulist (unfold f h (path ++ [loc])) l) as [vs|] eqn:Ul; [|discriminate]. inversion U; subst.
+        unfold wgo_list.
+        rewrite (go_list_tree (unfold f h (path ++ [loc])) (write_heap f h (path ++ [loc])) l vs); [reflexivity| |exact Ul].
+        rewrite Forall_forall. intros y _ v0. apply IHf.
+      * destruct (existsb (Nat.eqb loc) path); [discriminate|].
+        destruct (udict (unfold f h path) (unfold f h (path ++ [loc])) l) as [vs|] eqn:Ul; [|discriminate].
+        inversion U; subst.
+        rewrite (go_dict_tree _ _ _ _ (IHf h path) (IHf h (path ++ [loc])) l vs Ul). reflexivity.
+    + rewrite unfold_tuple in U. rewrite write_heap_tuple.
+      destruct (ulist (unfold (S f) h path) l) as [vs|] eqn:Ul; [|discriminate]. inversion U; subst.
+      rewrite (go_list_tree (unfold (S f) h path) (write_heap (S f) h path) l vs IH Ul). cbn [wbind].
+      rewrite (tuple_comma l _ vs Ul). reflexivity.
+Qed.
+
 End WithOracles.
